@@ -17,7 +17,8 @@ import (
 // import, include) or the root (elsewhere), nothing resolves above the root
 // (DESIGN.md §6 C15). Seam invariant, checked on every call.
 
-var c15Targets = []string{"/t.jet", "/a/t.jet", "/a/b/t.jet", "/a/b/c/t.jet", "/lib.jet", "/a/lib.jet", "/a/b/lib.jet", "/zz.jet"}
+// /ab/t.jet vs /a/b/t.jet: directory + name concatenate to the same string without a separator
+var c15Targets = []string{"/t.jet", "/a/t.jet", "/a/b/t.jet", "/a/b/c/t.jet", "/lib.jet", "/a/lib.jet", "/a/b/lib.jet", "/ab/t.jet", "/a/bc/t.jet", "/zz.jet"}
 var c15RefDirs = []string{"/", "/a", "/a/b", "/a/b/c"}
 
 const canary = "CANARY-SECRET-OUTSIDE-ROOT"
